@@ -1,5 +1,5 @@
 """C04 - extension tower: formulas by algebraic value numbering, tables, indices."""
-from .. import consts, formulas
+from .. import consts, formulas, fieldlayer
 
 EXPL = ('(R-POLY) The formulas ARE decided, for all inputs at once, by algebraic value numbering: each routine of Fq2/Fq6/Fq12 '
         '(add, subtract, multiply2, negate, multiply, square, multiply_by_nonresidue, the sparse products by c1 / c01 / c014, '
@@ -26,6 +26,8 @@ def run(ctx):
     ctx.level = 'other'
     ctx.assumptions = ['x is the trusted root; base-field operations are treated as exact ring operations (C02/C03 are about that layer)']
     for cfg, prog in ctx.programs().items():
+        fl = fieldlayer.rule_field_layer(ctx, cfg, prog)
+        ctx.floor('R-FIELDLAYER representation writes inside the field layer[%s]' % cfg, fl, 10)
         n = consts.rule_tower_constants(ctx, cfg, prog)
         ctx.floor('tower constant relations[%s]' % cfg, n, 30)
         m = formulas.rule_tower(ctx, cfg, prog)
